@@ -53,7 +53,13 @@ def ode_taylor(ctx, derivs, x0, y0, tol_prec, n):
     # ones do not (a series in powers of x^m, a polynomial solution of higher
     # degree). Check the differential equation itself at the end of the
     # step, and shorten the step until the Taylor polynomial satisfies it:
-    # a residual r there means a truncation error of about r*h/(n+1)
+    # a residual r there means a truncation error of about r*h/(n+1).
+    # The coefficients come from differences with the step h and carry an
+    # error of that relative order themselves, which a shorter step does not
+    # remove: the truncation falls like 2^n when the step is halved, that
+    # error like 2. When the residual has stopped falling like the
+    # truncation for two halvings in a row, the first of them is accepted
+    prev = floor = None
     for halvings in range(60):
         y1 = [sum(ts[k]*radius**k for k in range(n+1)) for ts in ser]
         dy1 = [sum(k*ts[k]*radius**(k-1) for k in range(1, n+1)) for ts in ser]
@@ -61,6 +67,14 @@ def ode_taylor(ctx, derivs, x0, y0, tol_prec, n):
         res = max(abs(dy1[d]-f1[d]) for d in range(dim))
         if res*radius <= (n+1)*tol:
             break
+        if prev is not None and n > 2 and ctx.ldexp(res, (n+1)//2) > prev:
+            if floor is not None:
+                radius = floor
+                break
+            floor = radius
+        else:
+            floor = None
+        prev = res
         radius /= 2
     return ser, x0+radius
 
